@@ -77,7 +77,7 @@ def generate(tier, rng):
     from ..spec import VSpec
     # (`C, u8` on a data-carrying enum is not generated: the verbatim copy on the field-less mirror trips rustc's
     #  conflicting_repr_hints lint - an observed quirk outside C09's repr list)
-    for raw in ('C', 'u8, align(4)', 'align(8)', 'C, align(16)'):
+    for raw in ('C', 'u8, align(4)', 'align(8)', 'C, align(16)', 'u8 / align(4)', 'align(4) / u8', 'C / align(16)', 'align(2) / i16 / align(8)'):
         for unit_only in (True, False):
             if unit_only and raw in ('C, u8', 'i16, C'):
                 continue  # rustc: conflicting representation hints on a field-less enum
@@ -86,7 +86,10 @@ def generate(tier, rng):
             if raw in ('C', 'C, align(16)', 'align(8)') and unit_only:
                 for i, v in enumerate(e.variants):
                     v.discr = [3, None, 9, None][i]
-            e.extra['repr_raw'] = raw
+            if ' / ' in raw:
+                e.extra['repr_attrs'] = [[h.strip() for h in a.split(',')] for a in raw.split(' / ')]   # several #[repr] attributes
+            else:
+                e.extra['repr_raw'] = raw
             e.extra['disc_asserts'] = []
             e.extra['evalflag'] = 1 if unit_only else 0
             e.extra['shape'] += ' disc_mode=raw'
